@@ -452,6 +452,10 @@ class Controller(object):
                 kmin, linalg_error = self.choose_point_to_replace(xnew - self.model.xopt(), skip_kopt=True)
 
                 if linalg_error:
+                    # Not adding the new point to the model - save it, in case it is the best so far
+                    if num_samples_run > 0:
+                        self.model.save_point(x, np.mean(rvec_list[:num_samples_run, :], axis=0), num_samples_run, self.nx,
+                                              x_in_abs_coords=True)
                     exit_info = ExitInformation(EXIT_LINALG_ERROR, "Singular matrix when finding kmin (in main loop)")
                     return exit_info  # return & quit
 
